@@ -404,12 +404,58 @@ def check_memo(prog: Program, res: Result) -> None:
         raise AnalysisError("C18-memo: the frame-image memo (self.cache_lf) was not found")
 
 
+def check_index(prog: Program, res: Result) -> None:
+    """The (frame, instance) index list of the centered-instance datasets and the cache fill agree on WHAT the instance
+    index counts: _get_instance_idx_list enumerates lf.instances (after the in-place user-instance narrowing) and
+    _fill_cache stacks the instances of `lf` and selects that index.  If the index is taken over another sequence (a local
+    filtered list, lf.user_instances) the in-memory / npz datasets serve a different animal than the chunk + streaming
+    path, which crops every instance of the frame in order."""
+    R = "C18-index"
+    ci = prog.cls(f"{CD}:CenteredInstanceDataset")
+    gl, fc = ci.methods.get("_get_instance_idx_list"), ci.methods.get("_fill_cache")
+    if gl is None or fc is None:
+        raise AnalysisError("CenteredInstanceDataset._get_instance_idx_list/_fill_cache vanished")
+    res.touch(gl)
+    res.touch(fc)
+    rets = [n for n in walk_function(gl.node) if isinstance(n, ast.Return) and isinstance(n.value, ast.Name)]
+    builds = astq.list_builds(gl.node, rets[0].value.id) if len(rets) == 1 else []
+    res.ob(R, len(builds) == 1, gl.qualname, "one place fills the (frame, instance) index list", f"{len(builds)} places fill the index list", gl.where)
+    for bd in builds:
+        g = bd.gens[-1] if bd.gens else None
+        le = astq.loop_elems(g, gl.node) if g is not None else None
+        site = bd.site if isinstance(bd.site, ast.stmt) else astq_enclosing18(bd.site)
+        seq = astq.norm(astq.expand_at(gl.node, le.seq, site, keep=["lf"])) if le is not None else None
+        idx_ok = le is not None and le.index is not None and isinstance(bd.elt, ast.Tuple) and len(bd.elt.elts) == 2 and norm(bd.elt.elts[1]) == le.index
+        res.ob(R, idx_ok and seq in ("lf.instances", "lf"), gl.qualname, "instance index = position in lf.instances",
+               f"the instance index enumerates `{seq}`, not `lf.instances`: _fill_cache selects that index among ALL instances of the frame, so another animal is served "
+               "(in-memory / npz datasets disagree with the chunk + streaming path)", f"{gl.module.relpath}:{site.lineno}")
+    # the cache fill stacks the instances of the same frame object, in order
+    stacks = [c for c in walk_function(fc.node) if isinstance(c, ast.Call) and norm(c.func).split(".")[-1] == "stack"]
+    src_ok = False
+    for c in stacks:
+        a0 = astq.expand_at(fc.node, c.args[0], astq_enclosing18(c), keep=["lf"]) if c.args else None
+        if isinstance(a0, ast.ListComp) and len(a0.generators) == 1 and not a0.generators[0].ifs and norm(a0.generators[0].iter) in ("lf", "lf.instances"):
+            src_ok = True
+        elif isinstance(c.args[0], ast.Name):
+            bs = astq.list_builds(fc.node, c.args[0].id)
+            if len(bs) == 1 and len(bs[0].gens) >= 1 and not [x for x in bs[0].conds] and norm(bs[0].gens[-1].iter) in ("lf", "lf.instances"):
+                src_ok = True
+    res.ob(R, src_ok, fc.qualname, "the cache fill stacks every instance of lf, in order", "the cache fill does not stack the instances of `lf` in order", fc.where)
+    res.floor(R, 3)
+
+
+def astq_enclosing18(n):
+    from ..core.program import enclosing_stmt
+    return enclosing_stmt(n)
+
+
 def check(prog: Program, res: Result) -> None:
     check_frame(prog, res)
     check_npz(prog, res)
     check_wiring(prog, res)
     check_block(prog, res)
     check_memo(prog, res)
+    check_index(prog, res)
     res.assumptions += ["pixel equality up to 8-bit quantisation is not decided", "centered-instance crop CENTRING differs between frameworks when scale != 1 (documented; excluded by the property's own wording)"]
 
 
